@@ -5,7 +5,7 @@ P=$1; I=$2; BASE=${3:-/tmp/mut}; OUT=${4:-$I}
 SRC=$BASE/$P/out
 WT=/tmp/mut/verify_$P
 export CARGO_NET_OFFLINE=true
-export CARGO_TARGET_DIR=/tmp/mut/verify_target_$P
+export CARGO_TARGET_DIR=/tmp/mut/verify_target_$P; [ -d /tmp/mut/$P/target ] && export CARGO_TARGET_DIR=/tmp/mut/$P/target
 [ -d $WT ] || git -C /repo worktree add --detach $WT HEAD -q
 cd $WT && git checkout -q -- . && git clean -fdq
 run_demo() { BOURSE_CORE_SO=$CARGO_TARGET_DIR/debug/libbourse.so BOURSE_SO=$CARGO_TARGET_DIR/debug/libbourse.so BOURSE_REPO=$WT python3-vt $SRC/demo$I.py > $1 2>&1; }
